@@ -21,6 +21,9 @@ ASSUMPTIONS = ["BlockValue.size_exponent <= 7 for block values in the handler st
 
 
 def check(env, rep, tier):
+    include(rep, env, tier, "c10", ("C10.1",), "C09.10",
+            "'for every budget that admits the client's block size ... answered 2.31': the size negotiation computes its bound without "
+            "overflowing for any budget (a regrouped sum fails for budgets near usize::MAX) and fails cleanly below the overhead")
     include(rep, env, tier, "c08", ("C08.4",), "C09.8",
             "'its response carries the Block1 acknowledgement': the acknowledgement put on the reply when the final block arrives is still "
             "there when an over-size reply is fragmented - the handler removes no option, and rebuilding the reply from its cached copy "
